@@ -16,6 +16,8 @@ EXPLANATION = (
     "the pre-step energy itself.")
 NOT_DECIDED = "the numerical balance, values computed inside energy-loss models and interactors"
 
+TECHNIQUE = ('energy-ledger pairing by CFG dominance/must-pass and reaching definitions; writer/caller ownership and per-step-action effect sets over the instantiation-level call graph')
+
 UNITS = [
     "src/celeritas/global/alongstep/AlongStepGeneralLinearAction.cc",
     "src/celeritas/global/alongstep/AlongStepUniformMscAction.cc",
